@@ -243,6 +243,11 @@ func genC06Case(t *rapid.T) C06Case {
 				sets = append(sets, col+"=?")
 				args = append(args, vals.Draw(t, "uv"))
 			}
+			if rapid.IntRange(0, 7).Draw(t, "updsub") == 0 {
+				// the new value comes from an (uncorrelated) query over the table being updated
+				sets[0] = strings.TrimSuffix(sets[0], "?") + "(select " + rapid.SampledFrom([]string{"count(*)", "count(" + others[0] + ")", "max(k)", "min(k)"}).Draw(t, "subagg") + " from %T)"
+				args = args[1:]
+			}
 			q := "update %T set " + strings.Join(sets, ",")
 			if rapid.IntRange(0, 5).Draw(t, "updwhere") != 0 {
 				w, a := genPred()
@@ -257,6 +262,10 @@ func genC06Case(t *rapid.T) C06Case {
 				w, a := genPred()
 				q += " where " + w
 				args = a
+				if rapid.IntRange(0, 5).Draw(t, "delsub") == 0 {
+					// the rows to delete are named by a query over the same table
+					q = "delete from %T where k in (select k from %T where " + w + ")"
+				}
 			}
 			c.Ops = append(c.Ops, SQLOp{Kind: "del", Q: q, Args: args})
 		case r < 90:
@@ -574,7 +583,7 @@ func sortedCopy(s []string) []string {
 func init() { register("TestC06_Diff", runC06) }
 
 func TestC06_Diff(t *testing.T) {
-	st := newStats(t, "C06", "TestC06_Diff", "programs of 1-40 statements (INSERT single/multi-row with and without column lists, NULL and duplicate keys; UPDATE/DELETE with key and non-key predicates; SELECT with = < <= > >= IN BETWEEN conjunctions over probes below/inside/above the key range and of other classes, ORDER BY k [DESC], LIMIT/OFFSET, aggregates; BEGIN..COMMIT; drop/re-create; new connection) run in lock-step on an s3db table (entries_per_node 2..4096, cache 0/3/1000, 1-4 columns, key column anywhere, 5-40 keys of all classes) and on a native WITHOUT ROWID table; non-trivial = a range or descending query answered from a tree of height>=1")
+	st := newStats(t, "C06", "TestC06_Diff", "programs of 1-40 statements (INSERT single/multi-row with and without column lists, NULL and duplicate keys; UPDATE/DELETE with key and non-key predicates, also with (uncorrelated) subqueries over the same table as new value or as the set of keys to delete; SELECT with = < <= > >= IN BETWEEN conjunctions over probes below/inside/above the key range and of other classes, ORDER BY k [DESC], LIMIT/OFFSET, aggregates; BEGIN..COMMIT; drop/re-create; new connection) run in lock-step on an s3db table (entries_per_node 2..4096, cache 0/3/1000, 1-4 columns, key column anywhere, 5-40 keys of all classes) and on a native WITHOUT ROWID table; non-trivial = a range or descending query answered from a tree of height>=1")
 	st.Assume = append(st.Assume,
 		"write_time is non-decreasing: inside transactions a third of the statements run under the previous statement's write time",
 		"multi-row INSERTs that fail part-way are compared only in autocommit mode on trees where known findings K3/K4 cannot trigger; the rest are counted under excluded")
